@@ -27,7 +27,8 @@ XF += [{"kind": "explicit_internal", "rate": 0.5, "seed": 1}, {"kind": "rewrite_
        {"kind": "rewrite_slides", "how": "optional_children"}, {"kind": "rewrite_charts", "how": "optional_children"}, {"kind": "big_blob", "size": 5000, "seed": 1},
        {"kind": "rewrite_charts", "how": "shift_order", "seed": 1}, {"kind": "rewrite_charts", "how": "reverse_repeated"}]
 XF += [{"kind": "respell_package_xml", "style": st, "seed": 2} for st in ("prefixed", "multiline", "utf16", "mixed")]
-SAME_SNAPSHOT = {"respell_rids", "respell_targets", "explicit_internal", "renumber", "respell_package_xml", "big_blob"}
+XF += [{"kind": "alias_types", "seed": 1}]
+SAME_SNAPSHOT = {"alias_types", "respell_rids", "respell_targets", "explicit_internal", "renumber", "respell_package_xml", "big_blob"}
 
 
 def main():
